@@ -7,7 +7,7 @@ SPEC = {'id': 'C29',
  'props_module': 'AgdbRaft.Props.C29',
  'audit_file': 'AgdbRaft/Audit/C29.lean',
  'full_theorems': [],
- 'partial_theorems': [],
+ 'partial_theorems': ['C29_vote_requires_log_check', 'C29_prevote_requires_log_check', 'C29_grant_recorded', 'C29_rule_is_conjunctive'],
  'counterexamples': ['C29_leader_completeness_counterexample'],
  'level': 'other',
  'level_text': 'The property is FALSE of the code (also with the C27 repair): Lean theorem C29_leader_completeness_counterexample refutes '
